@@ -7,7 +7,8 @@ for d in /verif/seeded/C*/; do
   ids=$(python3 - "$d" <<'PY'
 import json,sys
 m=json.load(open(sys.argv[1]+'/meta.json'))
-print(' '.join(k for k,v in m.get('checks',{}).items() if v.startswith('caught')))
+c=m.get('checks',{})
+print(' '.join(c['caught_by']) if 'caught_by' in c else ' '.join(k for k,v in c.items() if isinstance(v,str) and v.startswith('caught')))
 PY
 )
   [ -z "$ids" ] && continue
